@@ -202,7 +202,10 @@ pub fn spawn(ctx: &Ctx, script: &AttackScript) {
                     let Some(step) = steps.get(i).cloned() else { continue };
                     i += 1;
                     n_sent += 1;
+                    // the attacker's own connection lives at its own address
+                    let own_traffic = matches!(step.kind, Kind::ValidData { .. } | Kind::ValidAck);
                     let src = match &step.src {
+                        _ if own_traffic => me,
                         Src::Own => me,
                         Src::Spoof(n) => sc.addr(*n),
                         Src::Nowhere(k) => sc.addr(40 + (*k as usize % 100)),
